@@ -218,6 +218,29 @@ func c15Family(n int) []uriSpec {
 	if len(fam) > n {
 		fam = fam[:n]
 	}
+	// long lists: 33, 64 and 100 parameters / headers (the comparison works on fixed-size internal arrays)
+	for _, cnt := range []int{33, 64, 100, 101, 130} {
+		var ps, hs []string
+		for k := 0; k < cnt; k++ {
+			ps = append(ps, fmt.Sprintf("p%d=%d", k, k))
+			hs = append(hs, fmt.Sprintf("h%d=%d", k, k))
+		}
+		a := uriSpec{Scheme: "sip", User: "u", Host: "h", Params: ps}
+		b := a // differs in the value of the LAST parameter only
+		b.Params = append(append([]string(nil), ps[:cnt-1]...), fmt.Sprintf("p%d=x", cnt-1))
+		ar := a // same URI, reversed order and upper-case names
+		ar.Params = rev(up(ps, true, false))
+		br := b
+		br.Params = rev(up(b.Params, true, false))
+		c := uriSpec{Scheme: "sip", User: "u", Host: "h", Hdrs: hs}
+		d := c
+		d.Hdrs = append(append([]string(nil), hs[:cnt-1]...), fmt.Sprintf("h%d=x", cnt-1))
+		cr := c
+		cr.Hdrs = rev(up(hs, true, false))
+		dr := d
+		dr.Hdrs = rev(up(d.Hdrs, true, false))
+		fam = append(fam, a, ar, b, br, c, cr, d, dr)
+	}
 	return fam
 }
 
